@@ -298,6 +298,38 @@ theorem mem_foldl_maxMerge_of_ne {β : Type} (key : Bytes) (f : β → Nat) (l :
   | nil => exact hr
   | cons x xs ih => exact ih (maxMerge_sorted h) (mem_maxMerge_of_ne h hr hk)
 
+/-- rows restored after the index table are dominated by it: the table's index row exists and is at least
+    the ModifyIndex of every row (every write to the table sets the table index to its own, larger, index) -/
+def LateBounded (key : Bytes) (late : List Late) (idx : List IdxRow) : Prop :=
+  late ≠ [] → ∃ r ∈ idx, idxKey r = lc key ∧ ∀ p ∈ late, p.modify ≤ r.value
+
+/-- every index row computed by the restorers that run before IndexRestore is keyed by a table that has a
+    verbatim row in the snapshot -/
+theorem early_index_covered (s : State)
+    (hasS : s.sessions ≠ [] → ∃ r ∈ s.index, idxKey r = lc kSessions)
+    (hasK : s.kvs ≠ [] → ∃ r ∈ s.index, idxKey r = lc kKvs)
+    (hasT : s.tombs ≠ [] → ∃ r ∈ s.index, idxKey r = lc kTombstones) :
+    ∀ y ∈ s.tombs.foldl (fun a t => maxMerge kTombstones t.index a)
+            (s.kvs.foldl (fun a e => maxMerge kKvs e.modify a)
+              (s.sessions.foldl (fun a x => maxMerge kSessions x.modify a) [])),
+      ∃ x ∈ s.index, idxKey y = idxKey x := by
+  intro y hy
+  rcases mem_foldl_maxMerge_imp _ _ _ hy with hy | ⟨hne, hk⟩
+  · rcases mem_foldl_maxMerge_imp _ _ _ hy with hy | ⟨hne, hk⟩
+    · rcases mem_foldl_maxMerge_imp _ _ _ hy with hy | ⟨hne, hk⟩
+      · cases hy
+      · obtain ⟨r, hr, e⟩ := hasS hne; exact ⟨r, hr, hk.trans e.symm⟩
+    · obtain ⟨r, hr, e⟩ := hasK hne; exact ⟨r, hr, hk.trans e.symm⟩
+  · obtain ⟨r, hr, e⟩ := hasT hne; exact ⟨r, hr, hk.trans e.symm⟩
+
+theorem late_noop {key : Bytes} {late : List Late} {idx : List IdxRow} (hs : Sorted idxKey idx)
+    (h : LateBounded key late idx) : late.foldl (fun a p => maxMerge key p.modify a) idx = idx := by
+  cases late with
+  | nil => rfl
+  | cons x xs =>
+    obtain ⟨r, hr, hk, hv⟩ := h (by simp)
+    exact foldl_maxMerge_noop key _ _ hs hr hk hv
+
 /-! ### the phases of the restore fold -/
 
 /-- session_checks as the restorers rebuild it: every session's check links, re-inserted in session order -/
